@@ -34,9 +34,24 @@ class Client:
         self.types = {p["name"]: p["type"] for p in doc.get("parameterDefinitions") or []}
         self.job = None
         self.its = {}
+        self.sps = {}
+        self.seen = {}
 
     def pv(self):
         return {k: ParameterValue(type=ParameterValueType(self.types[k]), value=v) for k, v in self.vals.items() if k in self.types}
+
+    def iterations_independent(self):
+        """every iteration taken from one StepParameterSpaceIterator object yields a prefix of the space's own
+        sequence (then 'stop's), whatever other iterations of the same object did in between"""
+        if self.job is None:
+            return None
+        for (k, kind), got in self.seen.items():
+            step = self.job.steps[k % len(self.job.steps)]
+            full = [sorted([n, v.type.value, v.value] for n, v in ps.items()) for ps in StepParameterSpaceIterator(space=step.parameterSpace)]
+            want = (full + ["stop"] * len(got))[:len(got)]
+            if got != want:
+                return f"iteration {kind} of step {k} yielded {got} but the space's sequence starts {want}"
+        return None
 
     def run(self, op):
         kind = op[0]
@@ -46,24 +61,33 @@ class Client:
                 return sorted([k, v.type.value, v.value] for k, v in r.items())
             if kind == "create":
                 self.job = create_job(job_template=self.jt, job_parameter_values=self.pv())
+                self.sps, self.its, self.seen = {}, {}, {}
                 return model_to_object(model=self.job)
             if kind == "export":
                 return model_to_object(model=self.jt)
             if self.job is None:
                 return "no-job"
             step = self.job.steps[op[1] % len(self.job.steps)]
-            if kind == "iter":
-                self.its[op[1]] = iter(StepParameterSpaceIterator(space=step.parameterSpace))
+            if kind in ("iter", "iter2"):
+                self.seen[(op[1], "next" if kind == "iter" else "next2")] = []
+                # ONE StepParameterSpaceIterator object per (job, step): every __iter__ on it must be independent
+                key = op[1] % len(self.job.steps)
+                if key not in self.sps:
+                    self.sps[key] = StepParameterSpaceIterator(space=step.parameterSpace)
+                self.its[(op[1], kind)] = iter(self.sps[key])
                 return "iter"
-            if kind == "next":
-                it = self.its.get(op[1])
+            if kind in ("next", "next2"):
+                it = self.its.get((op[1], "iter" if kind == "next" else "iter2"))
                 if it is None:
                     return "no-iter"
                 try:
                     ps = next(it)
                 except StopIteration:
+                    self.seen.setdefault((op[1], kind), []).append("stop")
                     return "stop"
-                return sorted([k, v.type.value, v.value] for k, v in ps.items())
+                r = sorted([k, v.type.value, v.value] for k, v in ps.items())
+                self.seen.setdefault((op[1], kind), []).append(r)
+                return r
             if kind == "len":
                 return len(StepParameterSpaceIterator(space=step.parameterSpace))
             if kind == "getitem":
@@ -91,7 +115,15 @@ class Client:
         return "?"
 
 
-OPS = [("preprocess",), ("create",), ("export",), ("iter", 0), ("next", 0), ("next", 0), ("len", 0), ("getitem", 0, 0), ("getitem", 0, -1), ("graph",), ("setattr",), ("create",), ("next", 0)]
+OPS = [("preprocess",), ("create",), ("export",), ("iter", 0), ("next", 0), ("next", 0), ("iter2", 0), ("next2", 0), ("next2", 0), ("len", 0), ("getitem", 0, 0), ("getitem", 0, -1),
+       ("graph",), ("setattr",), ("create",), ("next", 0)]
+
+# programs that interleave two iterations taken from ONE StepParameterSpaceIterator object (run as program A)
+ITER_PROGRAMS = [
+    [("create",), ("iter", 0), ("next", 0), ("iter2", 0), ("next2", 0), ("next", 0), ("next2", 0), ("next", 0)],
+    [("create",), ("iter", 0), ("iter2", 0), ("next", 0), ("next", 0), ("next2", 0), ("next", 0), ("next2", 0)],
+    [("create",), ("iter", 0), ("next", 0), ("next", 0), ("iter2", 0), ("next", 0), ("next2", 0), ("len", 0), ("next2", 0)],
+]
 
 
 def interleavings(a, b):
@@ -148,6 +180,20 @@ class C18(core.PropBase):
             if rng.random() < 0.7:
                 pa[0] = ("create",)
                 pb[0] = ("create",)
+            if i % 2 == 0:
+                # a template whose first step certainly has a parameter space, and a program with two live iterations
+                comb = rng.choice([None, "A * B", "B * A", "(A, C) * B", "B * (A, C)"])
+                ps = {"taskParameterDefinitions": [{"name": "A", "type": "INT", "range": "1-3"}, {"name": "B", "type": "STRING", "range": ["x", "y"]},
+                                                   {"name": "C", "type": "FLOAT", "range": [0.5, 1, "2.5"]}]}
+                if comb is None or "C" not in comb:
+                    del ps["taskParameterDefinitions"][2]
+                if comb:
+                    ps["combination"] = comb
+                doc = {"specificationVersion": "jobtemplate-2023-09", "name": "n {{Param.N}}", "parameterDefinitions": [{"name": "N", "type": "INT", "default": 2}],
+                       "steps": [{"name": "s", "parameterSpace": ps, "script": {"actions": {"onRun": {"command": "{{Task.Param.A}} {{Param.N}}"}}}}]}
+                va, vb = {"N": "5"}, {}
+                pa = list(rng.choice(ITER_PROGRAMS))
+                pb = pb[:2]
             yield {"kind": "history", "doc": doc, "va": va, "vb": vb, "pa": [list(o) for o in pa], "pb": [list(o) for o in pb]}
         # 3. threads: the same operations from 2-8 threads on one shared template
         for i in range(6 if thorough else 2):
@@ -192,7 +238,13 @@ class C18(core.PropBase):
             for who, vals, prog in (("A", case["va"], pa), ("B", case["vb"], pb)):
                 c = Client(decode_job_template(template=copy.deepcopy(doc)), doc, vals)
                 iso[who] = [c.run(o) for o in prog]
+                prob = c.iterations_independent()
+                if prob:
+                    iso[who] = ["NOT-INDEPENDENT", prob]
             bad = []
+            for who in ("A", "B"):
+                if iso[who] and iso[who][0] == "NOT-INDEPENDENT":
+                    bad.append([who, iso[who][1][:300]])
             n = 0
             for sched in interleavings(pa, pb):
                 n += 1
